@@ -436,6 +436,38 @@ template<class T, class RT, class OT>
             }
         }
     }
+    // (e) narrowing from a finer static_number of the same tags: SrcDigits - shift == digits of T ("just fits") and one more;
+    // every source value. Rounding can carry the value past T's limit: that must be signalled, not wrapped or clamped silently
+    if constexpr (cv::scale_of<T>::scaled) {
+        constexpr int D = cnl::digits_v<rep>;
+        auto from_static = [&](auto src_proto, const char* sname) {
+            using Src = decltype(src_proto);
+            using srep = typename cv::scale_of<Src>::rep;
+            constexpr int SD = cnl::digits_v<srep>;
+            constexpr int SE = exp_of<Src>;
+            constexpr int shift = E - SE;
+            for (auto const& r : cv::space<srep>(16, 1)) {
+                if (!vf::my_row()) continue;
+                std::string const id = std::string(sname) + ":" + r.str();
+                if (vf::replaying() && !vf::case_selected(id)) continue;
+                Src sv = make<Src>(r);
+                Rat exact = Rat::scaled(r, 2, SE);
+                Big want_rep;
+                int expect = narrow_expect<T, RM>(exact, want_rep);
+                std::string lab = "/precision_losing/from_static_number";
+                Big q = round_mode(exact / unit, RM);
+                if (q.abs() >= Big::pow2(SD - shift)) lab += "/rounding_carries_past_source_digits_minus_shift";
+                vf::counted(true);
+                check_narrow<T, OM>("construct", expect, want_rep, id, lab, [&] { return T(sv); });
+                check_narrow<T, OM>("assign", expect, want_rep, id, lab, [&] { T y = make<T>(Big(0)); y = sv; return y; });
+            }
+        };
+        from_static(cnl::static_number<D + 1, E - 1, RT, OT, i8>{}, "static_number<D+1,E-1>");
+        from_static(cnl::static_number<D + 2, E - 2, RT, OT, i8>{}, "static_number<D+2,E-2>");
+        from_static(cnl::static_number<D + 3, E - 2, RT, OT, i8>{}, "static_number<D+3,E-2>");
+        from_static(cnl::static_number<D + 4, E - 4, RT, OT, i8>{}, "static_number<D+4,E-4>");
+        from_static(cnl::static_number<D + 1, E - 2, RT, OT, i8>{}, "static_number<D+1,E-2>");  // intermediate narrower than T
+    }
     // (d) built-in operands
     auto const space = cv::space<rep>(16, 1);
     for (auto const& ra : space) {
